@@ -53,7 +53,7 @@ def collect(chk, prop):
         for i in range(300 if thorough else 40):
             plans.append((rng.choice([12, 16, 24]), [2, 2], rng.choice([1.0, 1.5]), rng.choice(["manyholes", "complement"]), rng.choice([1, 3, 6]), -1))
         # corners whose edges have different topologies (diamond hubs), many absent pairings
-        for i in range(400 if thorough else 70):
+        for i in range(600 if thorough else 115):
             plans.append((rng.choice([12, 16, 24]), rng.choice([["w"], ["w"], ["w", 2], ["d"], [2, "d"], [3, 2], [3, 2], [4, 2, 3]]), rng.choice([0.8, 1.1, 1.5]), rng.choice(["complement", "complement", "holes", "random"]),
                           rng.choice([1, 3, 6]), -1))
     if prop == "C12":
